@@ -17,6 +17,7 @@ func init() {
 				{Harness: "c11.histories", Mode: "shim", Shards: 48, MaxRSS: 8192},
 				{Harness: "c11.bfs", Mode: "shim", Shards: 48, MaxRSS: 8192, Deadline: tiered(tier, 0, 15*time.Minute)},
 				{Harness: "c11.handles", Mode: "shim", Shards: 16, MaxRSS: 8192},
+				{Harness: "c11.order", Mode: "shim", Shards: 4},
 			}
 		},
 	})
